@@ -5,6 +5,19 @@ NOTES = ("Every check runs: translator -> lake build of the property's theorem m
          "the hook can record the value actually returned (no line is deleted, behaviour is unchanged).")
 NOT_YET = {}
 CLAIMS = {
+    "C15": {
+        "text": "PARTIAL (SentencePiece / Tokenizers converters judged per source, not modelled). Machine-checked Lean theorems: byte-level "
+                "placeholder table bijective and inverted on every byte string; <0xNN> parsing exact; the Tiktoken and Tekken converters "
+                "(after parsing) keep every source token, id and order and invent nothing; detection chain (native first; auto = explicit "
+                "iff earlier loaders reject); soundness of the decidable checker keepsCheck. Every shipped and generated source of all four "
+                "formats is converted by the real code, parsed independently, and judged by keepsCheck in the Lean driver; the Tiktoken / "
+                "Tekken models, the byte table and the byte-piece parser are compared with the implementation.",
+        "design_ref": "DESIGN.md §6 C15",
+        "note": "Partial: for SentencePiece and Tokenizers sources the theorem is about the checker, not about the converter; a converter "
+                "defect shows as a failing KEEPS verdict on a concrete source, not as a broken proof. Translation of normalizers, "
+                "pre-tokenizers, decoders and post-processors is covered behaviourally by C16 only.",
+        "technique": "Lean 4 proof over executable models (byte table, byte pieces, Tiktoken, Tekken, detection chain, checker soundness) + differential correspondence with independent source parsers",
+    },
     "C20": {
         "text": "PARTIAL (pyo3 glue not modelled). Machine-checked Lean theorems over a model of the wrapper as written in "
                 "packages/python/src/lib.rs: default flag off, single calls transparent, batch calls = list of single calls or first error "
